@@ -419,17 +419,28 @@ def check_reuse(ctx, case):
         if which == 'stored' and last_pk is None:
             which = 'right'
         use = last_pk if which == 'stored' else which
-        want = ec.verify(int.from_bytes(zb, 'big'), r, s, q if use == 'right' else q2)
+        if use == 'offcurve':
+            want = False             # (not a key: no triple with it is accepted)
+        else:
+            want = ec.verify(int.from_bytes(zb, 'big'), r, s, q if use == 'right' else q2)
+        raised = False
         try:
             if which == 'stored':
                 got = sig.verify(zb)
+            elif which == 'offcurve':
+                # a "key" that is no point of the curve (as a lenient reader hands it over): refused or rejected, and
+                # the object answers the next question as if this one had not been asked
+                bad = b'\x04' + q[0].to_bytes(32, 'big') + ((q[1] + 1) % ec.P).to_bytes(32, 'big')
+                got = sig.verify(zb, keys.Key(bad.hex(), strict=False))
             elif st_['entry'] == 'fn':
                 got = keys.verify(zb, sig, keys.Key(pkb[which]))
             else:
                 got = sig.verify(zb, keys.Key(pkb[which]))
         except Exception as e:
             got = False
-        last_pk = use
+            raised = True
+        if not (which == 'offcurve' and raised):
+            last_pk = use
         if bool(got) != want:
             raise Discrepancy('reuse.verdict:%s:%s' % (case['origin'], 'accepts' if got else 'rejects'),
                               'call %d on one Signature object (%s): verify(digest %d, key %s) = %r, standard ECDSA '
@@ -708,7 +719,7 @@ def strategies(ctx):
         'd': gen.secrets().map(_h), 'd2': st.integers(1, 1000).map(_h),
         'zs': st.lists(gen.digests().map(bytes.hex), min_size=2, max_size=3, unique=True),
         'origin': st.sampled_from(['sign', 'parse', 'ints']),
-        'steps': st.lists(st.fixed_dictionaries({'z': st.integers(0, 2), 'pk': st.sampled_from(['right', 'right', 'wrong', 'stored']),
+        'steps': st.lists(st.fixed_dictionaries({'z': st.integers(0, 2), 'pk': st.sampled_from(['right', 'right', 'wrong', 'stored', 'stored', 'offcurve']),
                                                  'entry': st.sampled_from(['method', 'fn'])}), min_size=2, max_size=5),
     })
     return sign, verify, reuse
